@@ -16,6 +16,7 @@ IR
             | ("IF", [Node])              LF % if True: LF .. LF % endif LF      (error grid only)
             | ("C", [Node])               <%call expr="wrap()">..</%call>        (error grid only)
             | ("CN", [Node])              <%self:wrap>..</%self:wrap>            (error grid only)
+            | ("INC", uri)                <%include file="uri"/>                 (family K)
 
 Reference semantics (DESIGN.md appendix A5, restating the property statement)
     render(main) follows the inherit targets main = L0 -> L1 -> .. -> Lk (a dynamic target is a Python expression
@@ -24,7 +25,8 @@ Reference semantics (DESIGN.md appendix A5, restating the property statement)
     named block at any depth outside defs, `body`) of Lj, else of L(j+1), .. else AttributeError; view(j).attr.X the
     same over module attributes.  A named block written in Li writes, at its position, self.X() iff no level
     i+1..k declares a member X; an anonymous block runs in place (a closure).  body(**kw) binds kw to the target's
-    <%page args>.  Expressions are evaluated by Python's eval() in an environment made of the render context, these
+    <%page args>.  <%include> (appendix A6): the target is rendered in place as a chain of its own - fresh self / local,
+    its own parent / next, nothing of the includer's chain, no page arguments.  Expressions are evaluated by Python's eval() in an environment made of the render context, these
     four views, `context` and the page arguments of the running body; a def call writes in place and returns ''.
 """
 
@@ -58,6 +60,8 @@ def print_nodes(nodes, out):
             out.append('<%call expr="wrap()">')
             print_nodes(nd[1], out)
             out.append("</%call>")
+        elif k == "INC":
+            out.append('<%%include file="%s"/>' % nd[1])
         elif k == "CN":
             out.append("<%self:wrap>")
             print_nodes(nd[1], out)
@@ -168,9 +172,11 @@ class _View:
 
 
 class Reference:
-    def __init__(self, prog, ctx):
+    def __init__(self, prog, ctx, out=None):
         self.ctx = dict(ctx)
-        self.out = []
+        self.files = prog["files"]
+        self.out = [] if out is None else out
+        self.included_callables = 0
         self.depth = 0
         self.steps = 0  # render callables entered
         self.bodies = 0
@@ -303,6 +309,19 @@ class Reference:
                                 self.overridden += 1
                             break
                     getattr(self.views[0], nd[1])(**pageargs)
+            elif k == "INC":
+                # a chain of its own, rendered in place: nothing of this chain's self / parent / next reaches it
+                target = nd[1] if nd[1].startswith("/") else posixpath.join(posixpath.dirname(self.levels[i]["uri"]), nd[1])
+                sub = Reference({"files": self.files, "main": target}, self.ctx, out=out)
+                self.included_callables += sub.callables + sub.included_callables
+                try:
+                    sub.body_callable(sub.k)()
+                finally:
+                    self.steps += sub.steps
+                    self.bodies += sub.bodies
+                    self.suppressed += sub.suppressed
+                    self.overridden += sub.overridden
+                    self.dispatch += sub.dispatch
             elif k == "IF":
                 out.append("\n")
                 self.run(nd[1], i, local_vars, pageargs)
@@ -416,7 +435,8 @@ def alphabet(seed):
 #   attr   : 0 absent | 1 = module attribute present, a string naming its level | a literal written out
 #            ("None", "0", "''", "False", "[]": family H)
 #   page   : 1 = <%page args="z=0"/> and the body prints z
-#   anon   : 1 = an anonymous block in the body, and one inside m1 when m1 is present
+#   anon   : 1 = an anonymous block in the body, and one inside m1 when m1 is present | "inc" = the body includes
+#            the second chain (family K)
 #   inh    : 's' static inherit target | 'd' target from ${context['upN']} | 'a<j>' target from
 #            ${context['self'].attr.<attr>_layN}, the attribute declared at level j | 'n' / 'N' target
 #            ${context.get('upN')} with upN absent / None: no parent          (always 's' in the last level)
@@ -452,6 +472,9 @@ def build_file(i, L, spec, al, probes, defsig="", extra_attrs=()):
     body = [("T", "[B%d%s" % (i, fill))]
     if page:
         body += [("T", " z="), ("E", "z")]
+    if anon == "inc":
+        body.append(("INC", al["inc"]))  # family K: the body includes the most-derived template of a second chain
+        anon = 0
     if anon:
         # every anonymous block starts on a line of its own (two on one line: see the error grid)
         body += [("T", "\n"), ("B", None, [("T", "(anon@%d)" % i)])]
@@ -478,6 +501,12 @@ def build_file(i, L, spec, al, probes, defsig="", extra_attrs=()):
     if cc != "-":
         body.append(("E", {"n": "next.body()", "s": "self.body()", "nz": "next.body(z=%d)" % zval, "sz": "self.body(z=%d)" % zval}[cc]))
     for view, what in probes:
+        if view == "split":
+            continue
+        if view == "ctx":
+            # what the context holds under parent / next (uri or <undefined>), whatever the position
+            body += [("T", " ctx.%s=" % what), ("E", "U(context, %r)" % what)]
+            continue
         if view == "parent" and acts_as_base:
             continue  # `parent` in the base-most template: not defined by the statement
         if view == "next" and i == 0:
@@ -576,7 +605,34 @@ def build_placed(chain, al, probes, defsig=""):
     return {"files": files, "main": uris[0], "ctx": {"P": "@helper:P", "A": "@helper:A"}}
 
 
+def build_including(chain, split, al, probes, defsig=""):
+    """family K: levels 0..split-1 are the including chain, the rest a second chain (uris i<uri>, filler marked with
+    an apostrophe) whose most-derived template one body of the first chain includes"""
+    inc_al = dict(al, uri="i" + al["uri"], fill=al["fill"] + "'")
+    al = dict(al, inc=inc_al["uri"] % 0)
+    pa = [p for p in probes if p[0] != "ctx"]
+    files = {}
+    for i, spec in enumerate(chain[:split]):
+        files[al["uri"] % i] = _memo_file(("K", i, split, spec, al["n1"], al["uri"], defsig), i, split, spec, al, pa, defsig)
+    rest = chain[split:]
+    for j, spec in enumerate(rest):
+        files[inc_al["uri"] % j] = _memo_file(("Ki", j, len(rest), spec, al["n1"], al["uri"], defsig), j, len(rest), spec, inc_al, probes, defsig)
+    return {"files": files, "main": al["uri"] % 0, "ctx": {"P": "@helper:P", "A": "@helper:A", "U": "@helper:U"}}
+
+
+def _memo_file(key, i, L, spec, al, probes, defsig, extra=()):
+    f = _FILES.get(key)
+    if f is None:
+        f = build_file(i, L, spec, al, probes, defsig, extra)
+        f["_text"] = print_file(f)
+        _FILES[key] = f
+    return f
+
+
 def build_program(chain, al, probes, defsig=""):
+    for p in probes:
+        if p[0] == "split":
+            return build_including(chain, p[1], al, probes, defsig)
     if chain[0][6][0] == "P":
         return build_placed(chain, al, probes, defsig)
     L = len(chain)
@@ -786,6 +842,25 @@ def grid_entry(L, fam="I"):
     return (fam, L, opts, PROBES_ENTRY, "")
 
 
+PROBES_INCLUDE = [("self", "m1"), ("local", "m1"), ("parent", "m1"), ("ctx", "parent"), ("ctx", "next")]
+
+
+def grid_including(Li, p, Lc, fam="K"):
+    """family K: an including chain of Li levels whose level p includes a second chain of Lc levels; both declare the
+    same member name (absent / def / block / block calling parent).  Li = 1 is the control: the includer does not
+    inherit"""
+    opts = []
+    for L, inc_at in ((Li, p), (Lc, None)):
+        for i in range(L):
+            pos = _pos(i, L)
+            o = []
+            for m1 in _kinds(pos, ("-", "d", "b", "bp")):
+                for cc in _cc(pos, ("-", "n")):
+                    o.append((m1, "-", 0, 0, 0, "inc" if i == inc_at else 0, "s", cc))
+            opts.append(o)
+    return (fam, Li + Lc, opts, PROBES_INCLUDE + [("split", Li)], "**kw")
+
+
 def grid_placed(L, full, fam="G"):
     """family G: every level in a directory of depth 0..2 of its own choice, targets spelled absolutely or relatively,
     decoys on/off; member absent/def (all levels def, every body chained, when not `full`)"""
@@ -850,9 +925,15 @@ def grids(tier):
         g.append(grid_attr_values(L))
     for L in (1, 2, 3):
         g.append(grid_entry(L))
+    for Li, p in ((1, 0), (2, 0), (2, 1)):
+        for Lc in (1, 2):
+            g.append(grid_including(Li, p, Lc))
     g.append(grid_placed(3, True))
     g.append(grid_placed(4, tier == "thorough"))
     if tier == "thorough":
+        for p in (0, 1, 2):
+            for Lc in (1, 2, 3):
+                g.append(grid_including(3, p, Lc))
         g.append(grid_attr_values(5))
         g.append(grid_entry(4))
         g.append(grid_attr_target(5))
